@@ -185,6 +185,7 @@ func TestCheck(t *testing.T) {
 	r.Floor("tls_requests_served", 2*nn)
 	r.Floor("plaintext_refusals", nn/25)
 	r.Floor("upgrades", nn/8)
+	r.Floor("http_requests_to_alias_only_origins", nn/40)
 	r.Floor("pooled_reuses", nn/2)
 	r.Floor("cross_origin_same_address_pairs", nn/10)
 	r.Floor("cross_origin_same_address_pairs_h3", nn/60)
@@ -347,6 +348,8 @@ func (w *world) judge(r *mon.Run, outs []outcome) {
 				viol("T1:plaintext-request", "the plaintext server received %s %s (Host %q) although the Transport was not reconfigured to allow plaintext", o.url(w.plainPort), e.Path, e.Host)
 			case o.Scheme == "https":
 				viol("T1:https-url-sent-in-plaintext", "the plaintext server received the request for %s%s", o.url(w.plainPort), e.Path)
+			case m.AliasUp:
+				viol("T2:plaintext-despite-alias-record", "plaintext is allowed, but %s publishes an alias-mode HTTPS record (%s) and the request was not upgraded", o.url(w.plainPort), m.QName)
 			case m.HasSvc:
 				viol("T2:plaintext-despite-https-records", "plaintext is allowed, but %s publishes HTTPS records (%s) and the request was not upgraded", o.url(w.plainPort), m.QName)
 			default:
@@ -559,6 +562,13 @@ func (w *world) judge(r *mon.Run, outs []outcome) {
 		if o.Scheme == "http" && m.HasSvc && m.Clean && !cs.Cfg.Concurrent && !cs.Cfg.PlainAllowed && !ok &&
 			len(dialsOf[rq.Marker]) == 0 && !h3Used && len(served[rq.Marker]) == 0 {
 			viol("T2:not-upgraded", "%s failed with %q without any TLS or QUIC dial although %s publishes service-mode HTTPS records: %s", out.URL, mon.Clip(out.Err, 160), m.QName, svcList(m))
+		}
+		if o.Scheme == "http" && m.AliasUp && !cs.Cfg.Concurrent && !cs.Cfg.PlainAllowed && !ok &&
+			len(dialsOf[rq.Marker]) == 0 && !h3Used && len(served[rq.Marker]) == 0 {
+			viol("T2:alias-only-not-upgraded", "%s failed with %q without any TLS or QUIC dial although %s publishes an alias-mode HTTPS record leading to a name with addresses (RFC 9460 9.5: any AliasMode record upgrades)", out.URL, mon.Clip(out.Err, 160), m.QName)
+		}
+		if o.Scheme == "http" && m.AliasUp {
+			r.Count("http_requests_to_alias_only_origins", 1)
 		}
 		class := "err"
 		if ok {
